@@ -369,6 +369,10 @@ class BodyGen:
                 arms = []
                 for v in vals:
                     pat = str(v) if o.kind == 'u' else f"'{v:0{o.w}b}'"
+                    if r.random() < 0.03:
+                        # a guarded case (`case 1 if cond:`): taken only when the guard holds, or the design is rejected
+                        pat += f" if {self.eg.cond(1)}"
+                        self.features.add('match-guard')
                     arms.append((pat, self.nested(lambda: self.seq_body(r.randint(1, 2), depth - 1))))
                 d = self.nested(lambda: self.seq_body(1, depth - 1)) if r.random() < 0.6 else None
                 out.append(('match', o.src, arms, d))
